@@ -215,6 +215,12 @@ func (f *File) enterWriteMode() error {
 		"name": f.name,
 	})
 
+	// Writing continues where reading (or seeking) on this handle has left off
+	position := int64(0)
+	if f.readOpReader != nil {
+		position = int64(f.readOpReader.BytesRead)
+	}
+
 	if f.readOpReader != nil || f.readOpWriter != nil {
 		if err := f.closeWithoutLocking(); err != nil {
 			return err
@@ -286,7 +292,12 @@ func (f *File) enterWriteMode() error {
 		}
 
 		if !f.flags.Append {
-			if _, err := f.writeBuf.Seek(0, io.SeekStart); err != nil {
+			// There is nothing left to continue in if the content has just been dropped
+			if f.flags.Truncate {
+				position = 0
+			}
+
+			if _, err := f.writeBuf.Seek(position, io.SeekStart); err != nil {
 				return err
 			}
 		}
